@@ -68,6 +68,7 @@ def trick_contracts(ctx, P) -> None:
     CONTRACT = {"start", "stop", "on_any_event", "_restart_process", "_start_process", "_stop_process"}
     cfg = K(P, follow_attrs=False, no_inline=CONTRACT | {"join"})
     cfg.havoc_on_acquire = False
+    cfg.exact_last_iteration = True  # what the last round of the polling loop found (a break, or a flag it set) stays known after the loop
 
     def paths(m):
         fi = A.methods.get(m)
@@ -186,8 +187,12 @@ def trick_contracts(ctx, P) -> None:
             first_failed = any(e.kind == "caught" and e.text.startswith("OSError") for e in p.evs[i0 + 1 : i0 + 3])
             rest = kills[1:]
             loops = [e for e in p.evs[i0:] if e.kind == "loop"]
-            exited = c.get("self.process.poll() is None") is False and any(e.kind == "final_iter" for e in p.evs)
-            expired = next((v for k, v in c.items() if k.startswith("time.time() < ") and "kill_after" in k), None) is False
+            # what the path last learnt, at top level (the last round of the polling loop is spliced in after the loop's summary)
+            top = [e for e in p.evs[i0:] if e.kind == "cond"]
+            polls = [e for e in top if e.text == "self.process.poll() is None"]
+            times = [e for e in top if e.text.startswith("time.time() < ") and "kill_after" in e.text]
+            exited = bool(polls) and polls[-1].extra.get("truth") is False
+            expired = (not exited) and bool(times) and times[-1].extra.get("truth") is False
             if first_failed:
                 if rest:
                     ok, why = False, "the stop signal failed (child already gone) but another signal is sent"
@@ -202,8 +207,6 @@ def trick_contracts(ctx, P) -> None:
                         bc = b.conds()
                         if (b.outcome == ("break",) or b.outcome[0] == "return") and bc.get("self.process.poll() is None") is not False:
                             ok, why = False, "the polling loop is left although the child was not found exited (no signal 9 follows)"
-                        if b.outcome is NORMAL and bc.get("self.process.poll() is None") is not True:
-                            ok, why = False, "the polling loop goes on although the child was found exited"
             else:
                 ok, why = False, f"the path neither sees the child exit nor kill_after expire [{p.sig()[:80]}]"
         if ok and not cleared:
@@ -321,7 +324,12 @@ def run(ctx) -> None:
         w = evs[j]
         if not w.extra.get("timed"):
             return False, "the last wait before the callback is the untimed wait for the first event"
-        res = next((x for x in evs[j + 1 : j + 3] if x.kind == "cond" and ".wait(" in x.text), None)
+        nxt = []
+        for x in evs[j + 1 :]:
+            if x.kind in ("wait", "call", "acquire", "release", "loop"):
+                break
+            nxt.append(x)
+        res = next((x for x in nxt if x.kind == "cond" and ".wait(" in x.text), None)
         if res is None:
             return False, "the result of the timed wait is not tested: a notify (a further event) ends the wait like the timeout does"
         if "debounce_interval_seconds" not in res.text:
@@ -362,7 +370,12 @@ def run(ctx) -> None:
                     if not ok1:
                         okq, msgq = False, m1
 
-    scan_cb(rp)
+    # enumerated with the last, normally ending round of every while loop spliced in: a flag the round sets from the wait's result
+    # (`quiet = not cond.wait(..)`) is then as good as a direct test of it
+    cfgq = ThreadCfg(P, follow_attrs=False, no_inline={"join", "start"})
+    cfgq.freeze_locals = True
+    cfgq.exact_last_iteration = True
+    scan_cb(Enumerator(cfgq).run(D.methods["run"], selfcls="EventDebouncer"))
     ctx.check(okq and nq > 0, RQ, "EventDebouncer.run delivers after a quiet interval", msgq or "no debounced hand-over found", D.methods["run"].loc)
     okp, msgp, nuw = True, "", 0
     for p in walk_all(rp):
